@@ -11,6 +11,7 @@ import (
 	sdk "github.com/cosmos/cosmos-sdk/types"
 	"github.com/lavanet/lava/v5/utils/sigs"
 	pairingtypes "github.com/lavanet/lava/v5/x/pairing/types"
+	projectstypes "github.com/lavanet/lava/v5/x/projects/types"
 
 	"verif/internal/ev"
 )
@@ -131,17 +132,15 @@ func (m *RelayMon) BeforeTx(s *Sim, name string, msg sdk.Msg) {
 
 // projectVersions lists the version blocks of a project entry in the projects fixation store.
 func (m *RelayMon) projectVersions(s *Sim, project string) []uint64 {
-	for _, prefix := range []string{"prj-fs", "prj", "project", "projects"} {
-		res, err := s.TS.QueryFixationVersions("projects", prefix, project)
-		if err == nil && len(res.Entries) > 0 {
-			var out []uint64
-			for _, e := range res.Entries {
-				out = append(out, e.Block)
-			}
-			return out
-		}
+	res, err := s.TS.QueryFixationVersions(projectstypes.StoreKey, projectstypes.ProjectsFixationPrefix, project)
+	if err != nil {
+		return nil
 	}
-	return nil
+	var out []uint64
+	for _, e := range res.Entries {
+		out = append(out, e.Block)
+	}
+	return out
 }
 
 type acceptedRelay struct {
@@ -350,7 +349,11 @@ func (m *RelayMon) AfterTx(s *Sim, r *TxRes) {
 						if pv, err := ks.Projects.GetProjectForBlock(ctx, p, vb); err == nil && pv.Snapshot == pj.Snapshot {
 							key := fmt.Sprintf("%s|%d", p, vb)
 							if before, had := pre.projUsed[key]; had && vb >= ri.epochStart && pv.UsedCu-before != sumByProject[p] {
-								m.v("C17", "snapshot-version-not-charged", "a version of the same monthly snapshot at/after the relay epoch was not charged", fmt.Sprintf("project %s version %d (relay epoch %d): delta=%d want %d (tx %s %s)", p, vb, ri.epochStart, pv.UsedCu-before, sumByProject[p], r.Name, r.Desc), s, r.Step)
+								sig := "a version of the same monthly snapshot at/after the relay epoch was not charged"
+								if vb > ri.epochStart+ks.Epochstorage.BlocksToSaveRaw(ctx) {
+									sig = "version lies beyond relay epoch + BlocksToSaveRaw (range used by ChargeComputeUnitsToProject)"
+								}
+								m.v("C17", "snapshot-version-not-charged", sig, fmt.Sprintf("project %s version %d (relay epoch %d): delta=%d want %d (tx %s %s)", p, vb, ri.epochStart, pv.UsedCu-before, sumByProject[p], r.Name, r.Desc), s, r.Step)
 							}
 						}
 					}
